@@ -168,6 +168,31 @@ def _iter_chromosomes_ragged(g, rows, cuts):
     return [[int(s) for s in t.position.tolist()] for t in ctx.iter_chromosomes(_ragged_stream(rows, cuts), _hit_class())]
 
 
+def _encoded_stream(g, rows, cuts):
+    """Interval chunks whose chromosome column is already encoded with the genome's own string encoding (what
+    Genome.get_intervals(...).get_data() hands out and GenomicIntervals.as_stream() groups)."""
+    import bionumpy as bnp
+    from bionumpy.streams import NpDataclassStream
+    from bionumpy.datatypes import Interval
+    enc = g.get_genome_context().encoding
+    b = [0] + cuts + [len(rows)]
+    chunks = [Interval(bnp.as_encoded_array([r[0] for r in rows[x:y]], enc), np.array([r[1] for r in rows[x:y]], dtype=int),
+                       np.array([r[2] for r in rows[x:y]], dtype=int)) for x, y in zip(b[:-1], b[1:])]
+    return NpDataclassStream(iter(chunks), dataclass=Interval)
+
+
+def _iter_chromosomes_encoded(g, rows, cuts):
+    from bionumpy.datatypes import Interval
+    ctx = g.get_genome_context()
+    return [[int(s) for s in t.start.tolist()] for t in ctx.iter_chromosomes(_encoded_stream(g, rows, cuts), Interval)]
+
+
+def _multistream_encoded(g, names, sizes, rows, cuts):
+    from bionumpy.streams.multistream import MultiStream
+    ms = MultiStream(dict(zip(names, sizes)), iv=_encoded_stream(g, rows, cuts))
+    return [[int(s) for s in t.start.tolist()] for t in ms.iv]
+
+
 def _multistream(names, sizes, mk):
     from bionumpy.streams.multistream import MultiStream
     ms = MultiStream(dict(zip(names, sizes)), iv=mk("interval"))
@@ -246,6 +271,9 @@ def check_vector(v):
             for cuts in _chunkings(len(rows)):
                 n += 1
                 judge("iter_chromosomes[ragged]", cuts, outcome(_iter_chromosomes_ragged, g, rows, cuts))
+                if all(r[0] in sizes for r in rows):      # an unknown name cannot be encoded at all
+                    n += 1
+                    judge("iter_chromosomes[genome-encoded]", cuts, outcome(_iter_chromosomes_encoded, g, rows, cuts))
     else:
         for cuts in _chunkings(len(rows)):
             if not rows:
@@ -255,6 +283,9 @@ def check_vector(v):
             judge("contingency_table", cuts, outcome(_jaccard, genome, [size] * len(genome), lambda cls: _stream(rows, cuts, cls)))
             n += 1
             judge("MultiStream[ragged]", cuts, outcome(_multistream_ragged, genome, [size] * len(genome), rows, cuts))
+            if all(r[0] in genome for r in rows):
+                n += 1
+                judge("MultiStream[genome-encoded]", cuts, outcome(_multistream_encoded, bnp.Genome.from_dict({name: size for name in genome}), genome, [size] * len(genome), rows, cuts))
     return {"n": n, "nt": nt, "bad": bad}
 
 
